@@ -26,8 +26,9 @@ import translate_repro
 
 IMPORTS = "From V Require Import Model.Repro Model.ReproRun."
 HERE = os.path.dirname(os.path.abspath(__file__))
-CFG_ID = {"default": 0, "legacy": 1, "nosmooth": 2, "randsel": 3, "adaptive": 4, "recluster1": 5, "silhouette": 6, "devalpha": 7}
+CFG_ID = {"default": 0, "legacy": 1, "nosmooth": 2, "randsel": 3, "adaptive": 4, "recluster1": 5, "silhouette": 6, "devalpha": 7, "supp3": 8, "suppcat": 9}
 SCRATCH = "/var/tmp/verif-c03-%d" % os.getpid()
+HASH_SALTS = ["0", "1", "2", "random", "4242"]
 
 
 # ------------------------------------------------------------------------------------------------ operations
@@ -120,6 +121,10 @@ def build_jobs(run, recl_default):
     T.append(fit("hourly", dsh[0], "randsel", sd))
     T.append(fit("hourly", dsh[1], "adaptive", sd))
     T.append(fit("hourly", dsh[0], "silhouette", sd))
+    # supplemental columns: three time-series columns; two time-series + two categorical columns (their order in the
+    # feature lists must not follow the hash order of a set)
+    T.append(fit("hourly", dsh[0], "supp3", sd))
+    T.append(fit("hourly", dsh[1], "suppcat", sd))
     if thorough:
         T.append(fit("hourly", dsh[1], "recluster1", sd))
         T.append(fit("hourly", dsh[2], "randsel", sd + 2))
@@ -131,13 +136,15 @@ def build_jobs(run, recl_default):
     draws = [((k_un, n_un), drawn)]
     jobs = []
 
-    def job(label, ops, threads=1, imports="numpy-first", cold=False, group=None, cache=None, stage=0, populated_by=None):
+    def job(label, ops, threads=1, imports="numpy-first", cold=False, group=None, cache=None, stage=0, populated_by=None, hashseed=None):
         """cache: name of a PRIVATE numba cache directory (None = the shared warm one); cold=True: a private empty one;
         stage 1: the job starts when the stage-0 job of the same cache has finished (a fresh process on the cache it left)"""
         if cold and cache is None:
             cache = "cold-%d" % len(jobs)
+        # every worker is a fresh interpreter with its own hash salt: 0 for the reference, then 1, 2, random, 4242, 0, ...
+        salt = hashseed if hashseed is not None else ("0" if not jobs else HASH_SALTS[len(jobs) % len(HASH_SALTS)])
         jobs.append({"label": label, "ops": ops, "threads": threads, "imports": imports, "cold": cold, "group": group,
-                     "cache": cache, "stage": stage, "populated_by": populated_by})
+                     "cache": cache, "stage": stage, "populated_by": populated_by, "hashseed": salt})
         return jobs[-1]
 
     # reference: every target once, canonical order, one thread
@@ -295,12 +302,16 @@ def build_jobs(run, recl_default):
             stage=1, threads=8, populated_by={k: pop2[k] for k in ("label", "ops", "threads", "imports", "cold", "cache")})
     # CalTRACK hourly: fresh with 1 and with 8 threads, and after fits of other families
     # (quick: 2 threads instead of 8 -- a LAPACK-heavy fit with 8 spinning BLAS threads on a shared machine takes minutes)
+    # hash salts are chosen so that the two known dependences of this model show separately: same salt / other pool size
+    # (C03-K1), same pool size / other salt (C03-K2), same both after other fits (must be identical)
     for ct in CT:
-        job("caltrack-fresh", [ct], threads=1)
-        job("caltrack-threads", [ct], threads=run.n(2, 8))
-    job("caltrack-after-others", [fit("daily", dsd[0]), fit("hourly", dsh[0], "default", sd), CT[0]], threads=1)
+        job("caltrack-fresh", [ct], threads=1, hashseed="0")
+        job("caltrack-threads", [ct], threads=run.n(2, 8), hashseed="0")
+        job("caltrack-other-salt", [ct], threads=1, hashseed="1")
+    job("caltrack-after-others", [fit("daily", dsd[0]), fit("hourly", dsh[0], "default", sd), CT[0]], threads=1, hashseed="0")
     if thorough:
-        job("caltrack-twice", [CT[0], fit("daily", dsd[0]), CT[0]], threads=1)
+        job("caltrack-twice", [CT[0], fit("daily", dsd[0]), CT[0]], threads=1, hashseed="0")
+        job("caltrack-other-salt", [CT[0]], threads=1, hashseed="random")
     return jobs, draws
 
 
@@ -315,7 +326,7 @@ def run_job(args):
     for v in ("OMP_NUM_THREADS", "OPENBLAS_NUM_THREADS", "MKL_NUM_THREADS", "NUMEXPR_NUM_THREADS", "VECLIB_MAXIMUM_THREADS"):
         env[v] = str(j["threads"])
     env["PYTHONPATH"] = vlib.repo_root()
-    env["PYTHONHASHSEED"] = "0"
+    env["PYTHONHASHSEED"] = str(j.get("hashseed") or "0")
     cache = j.get("cache")
     if cache:
         d = os.path.join(SCRATCH, "numba-%s" % cache)
@@ -370,24 +381,37 @@ def execute(run, jobs):
 
 # ------------------------------------------------------------------------------------------------ oracle
 
-def classify_difference(obs):
-    """obs: list of (job index, job, op index, digests) of ONE target whose digests are not all equal -> 'between' label"""
-    by_thr = {}
-    for ji, j, oi, d in obs:
-        by_thr.setdefault(j["threads"], set()).add(d)
-    if all(len(v) == 1 for v in by_thr.values()) and len(by_thr) > 1:
-        return "blas-threads"
-    by_proc = {}
-    for ji, j, oi, d in obs:
-        by_proc.setdefault(ji, set()).add(d)
-    if any(len(v) > 1 for v in by_proc.values()):
+def attribute(base, other):
+    """why may `other` differ from `base` (two executions (job index, job, op index, digest) of one target)"""
+    bi, bj, _, _ = base
+    oi, oj, _, _ = other
+    if bi == oi:
         return "same-process"
-    counts = {}
-    for ji, j, oi, d in obs:
-        counts[d] = counts.get(d, 0) + 1
-    major = max(counts, key=lambda d: counts[d])
-    labels = sorted({j["label"] for ji, j, oi, d in obs if d != major})
-    return "context:" + "+".join(labels)
+    salt = lambda j: str(j.get("hashseed") or "0")
+    same_salt = salt(bj) == salt(oj) and salt(bj) != "random"
+    same_thr = bj["threads"] == oj["threads"]
+    if same_salt and not same_thr:
+        return "blas-threads"
+    if same_thr and not same_salt:
+        return "hash-salt"
+    if not same_thr and not same_salt:
+        return "blas-threads+hash-salt"
+    return "context:" + oj["label"]
+
+
+def classify_difference(obs):
+    """obs: executions of ONE target whose digests are not all equal -> list of (between, base, other), one per kind of
+    difference, every execution being compared with the base execution (1 thread, salt 0, earliest job).  An execution that
+    differs from the base although pool size and hash salt agree is a 'context' difference; when only the salt (only the
+    pool size) differs the label says so -- unless an execution with the base's salt and pool size ALSO differs, which
+    shows that something else is going on and is reported as such."""
+    key = lambda x: (x[1]["threads"], str(x[1].get("hashseed") or "0") != "0", x[0], x[2])
+    base = min(obs, key=key)
+    out = {}
+    for o in sorted(obs, key=key):
+        if o[3] != base[3]:
+            out.setdefault(attribute(base, o), (base, o))
+    return [(k, v[0], v[1]) for k, v in out.items()]
 
 
 def oracle(run, jobs, results):
@@ -413,21 +437,20 @@ def oracle(run, jobs, results):
         for what in ("json", "pred"):
             dig = [(ji, j, oi, o[what]) for ji, j, oi, o in ok]
             if len({d for _, _, _, d in dig}) > 1:
-                between = classify_difference(dig)
-                first = dig[0]
-                other = next(x for x in dig if x[3] != first[3])
-                run.violation({"family": fam, "cfg": cfg, "differs": what, "between": between},
-                              "C03 %s (settings %s, seed %s, data set %s): %s differs between executions of the same fit [%s]: %s in '%s' vs %s in '%s'"
-                              % (fam, cfg, seed, ds, "to_json()" if what == "json" else "the fixed prediction", between,
-                                 first[3], first[1]["label"], other[3], other[1]["label"]),
-                              case={"target": list(key), "jobs": [strip(first[1]), strip(other[1])]},
-                              observation={"digests": sorted({"%s thr=%d %s" % (j["label"], j["threads"], d) for _, j, _, d in dig})},
-                              expected="one digest", generator="c03.build_jobs")
+                for between, first, other in classify_difference(dig):
+                    run.violation({"family": fam, "cfg": cfg, "differs": what, "between": between},
+                                  "C03 %s (settings %s, seed %s, data set %s): %s differs between executions of the same fit [%s]: %s in '%s' (threads %d, hash salt %s) vs %s in '%s' (threads %d, hash salt %s)"
+                                  % (fam, cfg, seed, ds, "to_json()" if what == "json" else "the fixed prediction", between,
+                                     first[3], first[1]["label"], first[1]["threads"], first[1].get("hashseed"),
+                                     other[3], other[1]["label"], other[1]["threads"], other[1].get("hashseed")),
+                                  case={"target": list(key), "jobs": [strip(first[1]), strip(other[1])]},
+                                  observation={"digests": sorted({"%s thr=%d salt=%s %s" % (j["label"], j["threads"], j.get("hashseed"), d) for _, j, _, d in dig})},
+                                  expected="one digest", generator="c03.build_jobs")
     return groups
 
 
 def strip(j):
-    return {k: j.get(k) for k in ("label", "ops", "threads", "imports", "cold", "cache", "stage", "populated_by")}
+    return {k: j.get(k) for k in ("label", "ops", "threads", "imports", "cold", "cache", "stage", "populated_by", "hashseed")}
 
 
 # ------------------------------------------------------------------------------------------------ Coq emission
@@ -505,8 +528,10 @@ def coq_hist(idx, j, r, ids, recl_default):
         cache = "[]"                                                   # a private, empty cache directory
     else:
         cache = "[(Daily, 0%Z); (Billing, 0%Z); (Hourly, 0%Z)]"        # the shared warm cache of the check
-    return "Definition h%d : hist := (%s, %s, %s, %s, %s, %s)." % (
-        idx, zlit(idx + 1), zlit(j["threads"]), cache, zlit(ids("rng", r["info"]["rng0"])), coq_list(ops), coq_list(obs))
+    # the hash salt in effect is identified by what the worker measured (hash("opendsm") mod 2^61): equal salts, equal value
+    return "Definition h%d : hist := (%s, %s, %s, %s, %s, %s, %s)." % (
+        idx, zlit(idx + 1), zlit(j["threads"]), cache, zlit(r["info"].get("salt_id", 0)), zlit(ids("rng", r["info"]["rng0"])),
+        coq_list(ops), coq_list(obs))
 
 
 def coq_draw_table(draws):
@@ -571,6 +596,7 @@ def main():
             j.setdefault("cache", "cold-replay" if j.get("cold") else None)
             j.setdefault("stage", 0)
             j.setdefault("populated_by", None)
+            j.setdefault("hashseed", "0")
         draws = []
         if not jobs:
             run.log("replay file carries no jobs (a broken proof / tie): re-running the full check")
@@ -585,8 +611,17 @@ def main():
     fut = bg.submit(execute, run, jobs)
     # ---- step 1: proofs
     if ex is not None:
-        run.write_generated(translate_repro.OUT, translate_repro.render(ex))
-        run.check_proofs("Properties/C03.v", ["Proofs/ReproProofs.v"], generated=["Generated/ReproGen.v"])
+        # Generated/ReproGen.v is shared: another C03 check running at the same time against another tree (VERIF_REPO) may
+        # replace it between our write and our build; the build counts only if the file still holds OUR tables afterwards
+        text = translate_repro.render(ex)
+        for attempt in range(4):
+            run.write_generated(translate_repro.OUT, text)
+            run.check_proofs("Properties/C03.v", ["Proofs/ReproProofs.v"], generated=["Generated/ReproGen.v"])
+            if open(os.path.join(vlib.COQ, translate_repro.OUT)).read() == text:
+                break
+            run.log("Generated/ReproGen.v was replaced by a concurrent run; rebuilding (attempt %d)" % (attempt + 2))
+            run.cov["trusted_base"] = [t for t in run.cov["trusted_base"] if not t.startswith(("Print Assumptions", "standard-library axioms"))]
+            time.sleep(5 + 10 * attempt)
     run.ensure_models(["Model/ReproRun.v", "Model/CasesLib.v"])
     run.log("proofs re-checked: %s" % ("ok" if run.proof_ok else "FAILED"))
     # source-level finding (refuted theorem C03_seed_reaches_every_consumer_in_source_refuted): still there?
@@ -637,6 +672,8 @@ def main():
                 run.dist("context", "%s thr=%d" % (j["label"], j["threads"]))
             else:
                 run.dist("other operations", op["op"] + ":" + str(op.get("what", "")))
+    for j, r in zip(jobs, results):
+        run.dist("hash salt of the worker (PYTHONHASHSEED -> hash('opendsm') % 1000)", "%s -> %s" % (j.get("hashseed"), r["info"].get("hash_probe")))
     run.dist("fit seconds (max)", int(max([o["t"] for r in results for o in r["obs"]] + [0])))
     for j, r in list(zip(jobs, results))[:3]:
         run.sample({"context": j["label"], "threads": j["threads"], "ops": [(o["op"], o.get("fam"), o.get("ds"), o.get("cfg"), o.get("seed")) for o in j["ops"]][:8],
